@@ -16,7 +16,7 @@ M=/tmp/seed-$NAME; rm -rf $M; rsync -a --exclude .git /repo/ $M/
 DEMO_CMD=${DEMO_CMD//$WT/$M}
 cd $M
 # drop other people's uncommitted hook files? no: the checks need them. Demo goes into its package.
-DEMO_DIR=${DEMO_PKG#./}; DEMO_DIR=${DEMO_DIR#go.minekube.com/gate/}
+DEMO_DIR=${DEMO_PKG%% *}; DEMO_DIR=${DEMO_DIR#./}; DEMO_DIR=${DEMO_DIR#go.minekube.com/gate/}; DEMO_DIR=${DEMO_DIR%/}
 cp $S/demo_test.go.txt $M/$DEMO_DIR/zz_demo_test.go
 echo "== demo WITHOUT change" > $S/confirm.log
 (cd $M && eval "$DEMO_CMD") >> $S/confirm.log 2>&1; D0=$?
